@@ -8,7 +8,7 @@ def body(c):
     # ---- design: every interleaving of the shared-state model at the granularity of its atomic steps
     c.tlc_design("Threads", "Threads_quick.cfg" if q else "Threads_thorough.cfg", heap="24g", timeout=3400, workers=16)
     # the invariants are not vacuous: each named deviation breaks one of them
-    for cfg, inv in (("Threads_dev_id.cfg", "NamesUnique"), ("Threads_dev_drop.cfg", "NoLeak")):
+    for cfg, inv in (("Threads_dev_id.cfg", "NamesUnique"), ("Threads_dev_drop.cfg", "NoLeak"), ("Threads_dev_scratch.cfg", "NonInterference")):
         r = c.tlc("Threads", cfg, workers=16, heap="16g", timeout=1800)
         if r.ok or ("Invariant %s is violated" % inv) not in r.out:
             raise ToolError("deviation config %s does not violate %s: the invariant would be vacuous" % (cfg, inv))
@@ -46,7 +46,7 @@ def body(c):
                       "data races inside C jets or unsafe blocks would need a different technique; what is checked is that results do not change"]
     c.finish_kw = dict(exhaustive=True, rule=(
         "TLC: %s, every interleaving of lock / fetch-add / clone / drop / release steps: results equal the sequential ones, drawn names unique, "
-        "reference counts memory-safe and leak-free, mutexes owned, termination under fairness; two deviation configs violate NamesUnique / NoLeak; "
+        "reference counts memory-safe and leak-free, mutexes owned, termination under fairness; three deviation configs (non-atomic counter, drop on an observed count, static scratch buffer in a C jet) violate NamesUnique / NoLeak / NonInterference; "
         "recorded rounds of 16 OS threads x 11 operation kinds validated by Trace_Threads" % ("2 threads x <= 3 ops" if q else "3 threads x <= 2 ops")))
 
 if __name__ == "__main__":
